@@ -479,6 +479,81 @@ func c16BindVsTimeout() *sched.Scenario {
 		}}
 }
 
+// c16InboundVsRealloc: a permitted peer connects to the relayed address of a TCP allocation while the client deletes
+// that allocation (Refresh 0) and allocates again on the same 5-tuple. The connection was accepted at the FIRST
+// relayed address: it belongs to the first allocation or is dropped; it is never bindable under the second one
+// (whose relayed address it never reached and whose permissions it was never checked against).
+func c16InboundVsRealloc() *sched.Scenario {
+	return &sched.Scenario{Name: "c16-inbound-connection-vs-reallocation", Bound: bound(), FreeBound: 2, Opt: opt,
+		Body: func(*vsched.Sched) (func() []string, func()) {
+			w := sched.NewBW(sched.BCfg{Stream: true, CB: func(string) { vsched.Point("callback", "cb") }})
+			c := w.NewClient("c1")
+			var nt notes
+			var dc *simnet.Conn
+			vsched.OnWind(func() {
+				if dc != nil {
+					_ = dc.Close()
+				}
+			})
+			vsched.Go("client", func() {
+				r := c.Do(wire.Allocate, tcp)
+				relay, ok := r.XorAddr(wire.AttrXORRelayedAddress)
+				if !ok {
+					nt.set("alloc", "failed")
+
+					return
+				}
+				c.Do(wire.CreatePermission, peer("A"))
+				vsched.Mark()
+				vsched.Go("peer", func() {
+					pa := vtx.PeerSpec["A"]
+					_, _ = w.Net.DialTCPAddr(&net.TCPAddr{IP: pa.IP, Port: pa.Port}, &net.TCPAddr{IP: relay.IP, Port: relay.Port})
+				})
+				c.Do(wire.Refresh, lifetime(0))
+				r2 := c.Do(wire.Allocate, tcp)
+				if r2.Class != wire.Success {
+					nt.set("alloc", "second-failed")
+
+					return
+				}
+				nt.set("alloc", "ok")
+				c.Inbox = nil // whatever was announced up to here belonged to the first allocation
+				vsched.IdleSleep(time.Second)
+				c.Inbox = append(c.Inbox, c.Recv()...)
+				// an indication still in flight when the first allocation ended may arrive late; what must not
+				// happen is that the connection it names is alive under the second allocation
+				for _, rx := range c.Inbox {
+					id, ok := uint32(0), false
+					if rx.Msg != nil && rx.Msg.Method == wire.ConnectionAttempt {
+						id, ok = rx.Msg.U32(wire.AttrConnectionID)
+					}
+					if !ok {
+						continue
+					}
+					dc = dataConn(w, c, 31001)
+					_, _ = dc.Write(bindReq(c, id, [12]byte{'l', 'a', 't', 'e'}))
+					vsched.Block("await", "late-bind", func() bool { return dc.PendingIn() > 0 || dc.SawEOF() })
+					if m, _ := readResp(dc); m != nil && m.Class == wire.Success {
+						nt.set("late-bind", rx.String())
+					}
+
+					break
+				}
+			})
+
+			return func() []string {
+				switch {
+				case nt.get("alloc") != "ok":
+					return []string{"c16:harness:allocate:" + nt.get("alloc")}
+				case nt.get("late-bind") != "":
+					return []string{"c16:connection-accepted-at-the-first-relayed-address-bound-under-the-second-allocation\n" + nt.get("late-bind")}
+				}
+
+				return nil
+			}, func() { _ = w.Srv.Close() }
+		}}
+}
+
 // c16FullDuplex: a bound connection carries data in both directions at the same time, over connections that are
 // plain net.Conns to the server (as crypto/tls connections are: io.Copy has no short cut and really uses its buffer).
 // Whatever the interleaving of the two copy loops, each end reads exactly the bytes the other end wrote.
@@ -1151,7 +1226,7 @@ func TestC06Sched(t *testing.T) { run(t, "C06", c06Realloc(), c06ReallocVsTimer(
 func TestC05Sched(t *testing.T) { run(t, "C05", c05StreamRelayVsResponse()) }
 
 func TestC04Sched(t *testing.T) { run(t, "C04", c04TwoConns(), c06Reconnect()) }
-func TestC16Sched(t *testing.T) { run(t, "C16", c16TwoBinds(), c16BindVsTimeout(), c16FullDuplex()) }
+func TestC16Sched(t *testing.T) { run(t, "C16", c16TwoBinds(), c16BindVsTimeout(), c16FullDuplex(), c16InboundVsRealloc()) }
 func TestC15Sched(t *testing.T) {
 	run(t, "C15", c15SlowCallback("alloc"), c15SlowCallback("perm"), c15SlowCallback("chan"), c15SlowCallbackReq("perm", "chanbind"), c15EqualDeadlines(), c15SlowDial("other"), c15SlowDial("own"), c15RequestDuringSlowTeardown())
 }
